@@ -975,6 +975,13 @@ func writeEvidence(c Check, o DriverOpts, m *Merged, known map[string]int, newVi
 	os.Rename(tmp, filepath.Join(o.Root, "evidence", c.ID()+".json"))
 }
 
+// AllStacks returns a dump of all goroutines.
+func AllStacks() string {
+	buf := make([]byte, 1<<20)
+	n := runtime.Stack(buf, true)
+	return string(buf[:n])
+}
+
 // Recover runs f and converts a panic on this goroutine into (value, stack).
 func Recover(f func()) (val string, stack string, panicked bool) {
 	defer func() {
